@@ -37,5 +37,7 @@ func init() {
 			New: "\t\tif isAllowedAddress(req.RemoteAddr) {\n\t\t\th.ServeHTTP(w, req)\n\t\t\treturn\n\t\t}\n\t\tlogging.CPrint(logging.WARN, \"api received request from forbidden address\", logging.LogFormat{\"remote_addr\": req.RemoteAddr, \"url_path\": req.URL.Path})\n\t\truntime.OtherErrorHandler(w, req, http.StatusText(http.StatusForbidden), http.StatusForbidden)"},
 		{Name: "request ip rendered once into a local", Kill: false, File: fGateway,
 			Old: "\t\tif tcpAddr.IP.String() == \"127.0.0.1\" || tcpAddr.IP.String() == \"::1\" {", New: "\t\tremote := tcpAddr.IP.String()\n\t\tif remote == \"127.0.0.1\" || remote == \"::1\" {"},
+		{Name: "binding targets memoised by key only (seed C20-r2b)", Kill: true, Rule: "C20-TARGET", File: "api/util.go",
+			Old: "func getBindingTarget(pub []byte, proofType poc.ProofType, bitLength int) (string, error) {\n", New: "var bindingTargets = map[string]string{}\n\nfunc getBindingTarget(pub []byte, proofType poc.ProofType, bitLength int) (string, error) {\n\tif encoded, ok := bindingTargets[string(pub)]; ok {\n\t\treturn encoded, nil\n\t}\n"},
 	}
 }
